@@ -73,11 +73,12 @@ def _annot_is_set(a: Optional[ast.AST]) -> bool:
 
 def rule_r1(ctx: Ctx) -> None:
     repo = ctx.repo
-    ctx.rule("C10.R1", "order taint: unordered collections (sets, rglob results) are sorted before they are returned or drive an order-sensitive loop", min_instances=6)
+    ctx.rule("C10.R1", "order taint: unordered collections (sets, rglob results) are sorted before they are returned or drive an order-sensitive loop", min_instances=4)
     _LOG_ONLY.clear()
     _LOG_ONLY.update(_find_log_only(ctx.repo))
     UNORDERED_HELPERS.clear()
-    funcs = [f for f in repo.all_functions().values() if f.module.name in MODS]
+    scope = set(repo.with_satellites(MODS))
+    funcs = [f for f in repo.all_functions().values() if f.module.name in scope]
     # interprocedural seed: parameters that receive unordered arguments
     tainted_params: Dict[str, Set[str]] = {}
     results: List[Tuple[FuncInfo, str, bool, str, ast.AST]] = []
